@@ -51,10 +51,11 @@ class Sandbox:
                 pass
         return None
 
-    def __init__(self, use_env=True, base=None):
+    def __init__(self, use_env=True, base=None, nested=False):
         os.makedirs(os.path.join(VERIF, "_build"), exist_ok=True)
         self.root = tempfile.mkdtemp(prefix="datahome.", dir=base or os.path.join(VERIF, "_build"))
         self.use_env = use_env
+        self.nested = nested
         self.downloads = []
         self.current = None
 
@@ -82,7 +83,8 @@ class Sandbox:
             return sb.orig_fetch(remote, *a, **k)
         B._fetch_remote = spy_fetch
         if self.use_env:
-            os.environ["TRAFFIC_WEAVER_DATA"] = os.path.join(self.root, "env-home")
+            # nested: a data home whose parent directories do not exist yet either (a per-site / per-user layout on first use)
+            os.environ["TRAFFIC_WEAVER_DATA"] = os.path.join(self.root, "site", "user", "env-home") if self.nested else os.path.join(self.root, "env-home")
         else:
             os.environ.pop("TRAFFIC_WEAVER_DATA", None)
             os.environ["HOME"] = os.path.join(self.root, "fake-home")
@@ -144,6 +146,9 @@ Definition rejected_obs (ds : string) (e : exn) : bool := match resolve ds with 
             remote_docs = [(f_, n_) for f_, n_ in doc_names() if f_ != "sandvine"]
             for fam, name in remote_docs[::11]:
                 cases.append({"name": name, "doc": name, "family": fam, "unpack": False, "env": True, "again": True, "other_fs": True})
+        # a data home whose parent directories do not exist yet either (TRAFFIC_WEAVER_DATA=<root>/site/user/...; first use)
+        for fam, name in [(f_, n_) for f_, n_ in doc_names() if f_ != "sandvine"][::11]:
+            cases.append({"name": name, "doc": name, "family": fam, "unpack": True, "env": True, "again": False, "nested_home": True})
         # data home resolution without the environment variable, and unknown names
         docs = doc_names()
         for fam, name in docs[::9]:
@@ -156,7 +161,7 @@ Definition rejected_obs (ds : string) (e : exn) : bool := match resolve ds with 
         from traffic_weaver.datasets import load_dataset
         with warnings.catch_warnings():
             warnings.simplefilter("ignore")
-            with Sandbox(use_env=c["env"], base=(Sandbox.other_filesystem() if c.get("other_fs") else None)) as sb:
+            with Sandbox(use_env=c["env"], base=(Sandbox.other_filesystem() if c.get("other_fs") else None), nested=bool(c.get("nested_home"))) as sb:
                 try:
                     r = load_dataset(c["name"], unpack_dataset_columns=c["unpack"])
                     if c["unpack"]:
@@ -203,7 +208,7 @@ Definition rejected_obs (ds : string) (e : exn) : bool := match resolve ds with 
             url, fname, rel = o["downloads"][0]
             files = [f for f in o["listing"]]
             slot = files[0] if len(files) == 1 else "?"
-            home = "env-home/" if c["env"] else "fake-home/.traffic-weaver-data/"
+            home = ("site/user/env-home/" if c.get("nested_home") else "env-home/") if c["env"] else "fake-home/.traffic-weaver-data/"
             slot = slot[len(home):] if slot.startswith(home) else "?" + slot      # drop the data-home directory itself
             return "remote_obs %s %s %s %s" % (ds, cstr(url), cstr(fname), cstr(slot))
         tol = tol_for(o["x"] + o["y"])
@@ -258,7 +263,7 @@ Definition rejected_obs (ds : string) (e : exn) : bool := match resolve ds with 
             if len(files) != 1:
                 fail("cache-files", "data home holds %s after one load" % files)
             else:
-                home = "env-home" if c["env"] else os.path.join("fake-home", ".traffic-weaver-data")
+                home = (os.path.join("site", "user", "env-home") if c.get("nested_home") else "env-home") if c["env"] else os.path.join("fake-home", ".traffic-weaver-data")
                 if not files[0].startswith(home + os.sep):
                     fail("data-home", "cache written to %s, expected under %s" % (files[0], home))
                 slot = files[0][len(home) + 1:]
